@@ -1,4 +1,4 @@
-use rusty_bit_vec::{BitVec, BitVecIntOrLong, MAX_INTEGER, MAX_LONG};
+use rusty_bit_vec::{BitVec, BitVecIntOrLong, MAX_INTEGER, MAX_LONG, MIN_INTEGER, MIN_LONG};
 use rusty_pc::*;
 
 use crate::error::ParserError;
@@ -18,29 +18,39 @@ pub(super) fn parser() -> impl Parser<StringView, Output = ExpressionPos, Error 
     .with_pos()
 }
 
+/// Decimal digits directly after a minus sign (which the caller has consumed).
+///
+/// The sign takes part in choosing the type: `-32768` is an integer and `-2147483648` is a long,
+/// although `32768` is a long and `2147483648` is a double.
+pub(super) fn negative_dec_parser()
+-> impl Parser<StringView, Output = Expression, Error = ParserError> {
+    any_token_of!(TokenType::Digits).and_then(|token| process_dec(token, true))
+}
+
 fn process_token(token: Token) -> Result<Expression, ParserError> {
     match TokenType::from_token(&token) {
-        TokenType::Digits => process_dec(token),
+        TokenType::Digits => process_dec(token, false),
         TokenType::HexDigits => process_hex(token),
         TokenType::OctDigits => process_oct(token),
         _ => panic!("Should not have processed {}", token),
     }
 }
 
-fn process_dec(token: Token) -> Result<Expression, ParserError> {
+fn process_dec(token: Token, negative: bool) -> Result<Expression, ParserError> {
     match token.to_string().parse::<u32>() {
         Ok(u) => {
-            if u <= MAX_INTEGER as u32 {
-                Ok(Expression::IntegerLiteral(u as i32))
-            } else if u <= MAX_LONG as u32 {
-                Ok(Expression::LongLiteral(u as i64))
+            let n: i64 = if negative { -(u as i64) } else { u as i64 };
+            if n >= MIN_INTEGER as i64 && n <= MAX_INTEGER as i64 {
+                Ok(Expression::IntegerLiteral(n as i32))
+            } else if n >= MIN_LONG && n <= MAX_LONG {
+                Ok(Expression::LongLiteral(n))
             } else {
-                Ok(Expression::DoubleLiteral(u as f64))
+                Ok(Expression::DoubleLiteral(n as f64))
             }
         }
-        // more digits than fit in 32 bits: a double, like every other value above MAX_LONG
+        // more digits than fit in 32 bits: a double, like every other value outside the long range
         Err(_) => match token.to_string().parse::<f64>() {
-            Ok(f) => Ok(Expression::DoubleLiteral(f)),
+            Ok(f) => Ok(Expression::DoubleLiteral(if negative { -f } else { f })),
             Err(e) => Err(e.into()),
         },
     }
